@@ -76,7 +76,8 @@ ExportRaises(o) == \E s \in 2..Len(stages) : RowRaises(s, o)
 
 \* comparison up to the spelling of null cells (I1): '.', '*', '' and cells made only of those and spaces are one value
 IsNullText(t) == \A i \in 1..Len(t) : t[i] \in {DOT, STAR, SPACE}
-NormCell(t) == IF IsNullText(t) THEN <<0>> ELSE t
+\* (a cell that is EMPTY is not a null token: a placeholder is at least one character - an empty column is not a legal cell)
+NormCell(t) == IF t # <<>> /\ IsNullText(t) THEN <<0>> ELSE t
 NormGrid(g) == [r \in 1..Len(g) |-> [i \in 1..Len(g[r]) |-> NormCell(g[r][i])]]
 GridEq(a, b) == NormGrid(a) = NormGrid(b)
 
